@@ -11809,6 +11809,137 @@ let rec misused_class in_cc = function
 let regex_prepare e =
   misused_class false (misused_repetition (cleanup e))
 
+(** val sh_safe : n -> bool **)
+
+let sh_safe c =
+  (||)
+    ((||)
+      ((||)
+        ((||)
+          ((||)
+            ((||)
+              ((||)
+                ((||)
+                  ((||)
+                    ((&&) (N.leb (Npos (XI (XO (XO (XO (XO (XI XH))))))) c)
+                      (N.leb c (Npos (XO (XI (XO (XI (XI (XI XH)))))))))
+                    ((&&) (N.leb (Npos (XI (XO (XO (XO (XO (XO XH))))))) c)
+                      (N.leb c (Npos (XO (XI (XO (XI (XI (XO XH))))))))))
+                  ((&&) (N.leb (Npos (XO (XO (XO (XO (XI XH)))))) c)
+                    (N.leb c (Npos (XI (XO (XO (XI (XI XH)))))))))
+                (N.eqb c (Npos (XI (XO (XI (XI (XO XH))))))))
+              (N.eqb c (Npos (XI (XI (XI (XI (XI (XO XH)))))))))
+            (N.eqb c (Npos (XI (XO (XI (XI (XI XH))))))))
+          (N.eqb c (Npos (XI (XI (XI (XI (XO XH))))))))
+        (N.eqb c (Npos (XO (XO (XI (XI (XO XH))))))))
+      (N.eqb c (Npos (XO (XI (XI (XI (XO XH))))))))
+    (N.eqb c (Npos (XI (XI (XO (XI (XO XH)))))))
+
+(** val sh_escape : n list -> n list **)
+
+let sh_escape s = match s with
+| [] ->
+  (Npos (XI (XI (XI (XO (XO XH)))))) :: ((Npos (XI (XI (XI (XO (XO
+    XH)))))) :: [])
+| _ :: _ ->
+  if forallb sh_safe s
+  then s
+  else app ((Npos (XI (XI (XI (XO (XO XH)))))) :: [])
+         (app
+           (flat_map (fun c ->
+             if (||) (N.eqb c (Npos (XI (XI (XI (XO (XO XH)))))))
+                  (N.eqb c (Npos (XI (XO (XO (XO (XO XH)))))))
+             then (Npos (XI (XI (XI (XO (XO XH)))))) :: ((Npos (XO (XO (XI
+                    (XI (XI (XO XH))))))) :: (c :: ((Npos (XI (XI (XI (XO (XO
+                    XH)))))) :: [])))
+             else c :: []) s) ((Npos (XI (XI (XI (XO (XO XH)))))) :: []))
+
+(** val t_EXPORT : n list **)
+
+let t_EXPORT =
+  (Npos (XI (XO (XI (XO (XO (XI XH))))))) :: ((Npos (XO (XO (XO (XI (XI (XI
+    XH))))))) :: ((Npos (XO (XO (XO (XO (XI (XI XH))))))) :: ((Npos (XI (XI
+    (XI (XI (XO (XI XH))))))) :: ((Npos (XO (XI (XO (XO (XI (XI
+    XH))))))) :: ((Npos (XO (XO (XI (XO (XI (XI XH))))))) :: ((Npos (XO (XO
+    (XO (XO (XO XH)))))) :: []))))))
+
+(** val t_ECHO : n list **)
+
+let t_ECHO =
+  (Npos (XI (XO (XI (XO (XO (XI XH))))))) :: ((Npos (XI (XI (XO (XO (XO (XI
+    XH))))))) :: ((Npos (XO (XO (XO (XI (XO (XI XH))))))) :: ((Npos (XI (XI
+    (XI (XI (XO (XI XH))))))) :: ((Npos (XO (XO (XO (XO (XO
+    XH)))))) :: ((Npos (XO (XI (XO (XO (XO XH)))))) :: [])))))
+
+(** val t_ECHO2 : n list **)
+
+let t_ECHO2 =
+  (Npos (XI (XO (XO (XO (XI XH)))))) :: ((Npos (XO (XI (XI (XI (XI
+    XH)))))) :: ((Npos (XO (XI (XI (XO (XO XH)))))) :: ((Npos (XO (XI (XO (XO
+    (XI XH)))))) :: ((Npos (XO (XO (XO (XO (XO XH)))))) :: ((Npos (XI (XO (XI
+    (XO (XO (XI XH))))))) :: ((Npos (XI (XI (XO (XO (XO (XI
+    XH))))))) :: ((Npos (XO (XO (XO (XI (XO (XI XH))))))) :: ((Npos (XI (XI
+    (XI (XI (XO (XI XH))))))) :: ((Npos (XO (XO (XO (XO (XO
+    XH)))))) :: ((Npos (XO (XI (XO (XO (XO XH)))))) :: []))))))))))
+
+(** val footer : n list -> n -> n list **)
+
+let footer salt i =
+  app pREFIX
+    (app salt
+      (app cOLONS
+        (app (dec i) ((Npos (XO (XI (XO (XI (XI XH)))))) :: ((Npos (XO (XI
+          (XO (XI (XI XH)))))) :: ((Npos (XO (XO (XI (XO (XO
+          XH)))))) :: ((Npos (XI (XI (XI (XI (XI XH)))))) :: [])))))))
+
+(** val export_lines : (n list * n list) list -> n list list option **)
+
+let export_lines env0 =
+  if forallb (fun kv -> text_eqb (sh_escape (fst kv)) (fst kv)) env0
+  then Some
+         (map (fun kv ->
+           app t_EXPORT
+             (app (fst kv)
+               (app ((Npos (XI (XO (XI (XI (XI XH)))))) :: [])
+                 (sh_escape (snd kv))))) env0)
+  else None
+
+(** val test_blocks : n list -> bool -> n -> n list list -> n list list **)
+
+let rec test_blocks salt combined i = function
+| [] -> []
+| e :: r ->
+  app
+    (e :: ([] :: ((app t_ECHO
+                    (app (footer salt i) ((Npos (XO (XI (XO (XO (XO
+                      XH)))))) :: []))) :: [])))
+    (app
+      (if combined
+       then []
+       else (app t_ECHO2
+              (app (footer salt i) ((Npos (XO (XI (XO (XO (XO XH)))))) :: []))) :: [])
+      (test_blocks salt combined (N.add i (Npos XH)) r))
+
+(** val script_join : n list list -> n list **)
+
+let rec script_join = function
+| [] -> []
+| x :: r ->
+  (match r with
+   | [] -> x
+   | _ :: _ -> app x (app ((Npos (XO (XI (XO XH)))) :: []) (script_join r)))
+
+(** val compile_script :
+    n list -> bool -> (n list * n list) list -> n list list -> n list option **)
+
+let compile_script salt combined env0 exprs = match exprs with
+| [] -> Some []
+| _ :: _ ->
+  (match export_lines env0 with
+   | Some ex ->
+     Some (script_join (app ex (test_blocks salt combined N0 exprs)))
+   | None -> None)
+
 (** val make_exp : bool -> bool -> (nat -> bool) -> nat exp **)
 
 let make_exp o m f =
